@@ -31,6 +31,7 @@
 #include <string.h>
 
 #include "newuoa.h"
+#include "nlopt-verif.h"
 
 #define MIN2(a,b) ((a) <= (b) ? (a) : (b))
 #define MAX2(a,b) ((a) >= (b) ? (a) : (b))
@@ -1768,6 +1769,7 @@ L50:
 /* L60: */
 	x[j] = xpt[nf + j * xpt_dim1] + xbase[j];
     }
+    NLOPT_VERIF_SITE(104, *n, &x[1]);
     if (lb && ub) { /* SGJ, 2008: make sure we are within bounds */
 	 for (j = 1; j <= i__1; ++j) {
 	      if (x[j] < lb[j-1]) x[j] = lb[j-1];
@@ -2108,6 +2110,7 @@ L290:
 /* L300: */
 	x[i__] = xbase[i__] + xnew[i__];
     }
+    NLOPT_VERIF_SITE(104, *n, &x[1]);
     if (lb && ub) { /* SGJ, 2008: make sure we are within bounds,
 		       since roundoff errors can push us slightly outside */
 	 for (j = 1; j <= *n; ++j) {
